@@ -117,7 +117,7 @@ def check(case, stats):
 
     lib.run_primes(case.get("primes"))
     pred, ref, cfg = c01.resolve(case)
-    mets = PM.METRICS + (["clDSC"] if case.get("cldsc") else [])
+    mets = list(case.get("imetrics", PM.METRICS)) + (["clDSC"] if case.get("cldsc") else [])
     cfg["imetrics"] = mets
     ev = lib.evaluator(cfg)
     res, isd = H.lib_call(ev.evaluate, pred, ref)["ungrouped"]
